@@ -600,15 +600,23 @@ impl RelayServiceWithNotify {
             RelayUpgradeReqError::UnsupportedWebsocketVersion
         );
 
-        let subprotocols = expect_header(&req, SEC_WEBSOCKET_PROTOCOL)?
-            .to_str()
-            .ok()
-            .ok_or_else(|| {
-                e!(RelayUpgradeReqError::InvalidHeader {
-                    header: SEC_WEBSOCKET_PROTOCOL,
-                    details: "header value is not ascii".to_string()
+        // The header may appear multiple times, which is the same as a single header
+        // containing all values (RFC 6455, section 11.3.4).
+        expect_header(&req, SEC_WEBSOCKET_PROTOCOL)?;
+        let subprotocols = req
+            .headers()
+            .get_all(SEC_WEBSOCKET_PROTOCOL)
+            .iter()
+            .map(|value| {
+                value.to_str().ok().ok_or_else(|| {
+                    e!(RelayUpgradeReqError::InvalidHeader {
+                        header: SEC_WEBSOCKET_PROTOCOL,
+                        details: "header value is not ascii".to_string()
+                    })
                 })
-            })?;
+            })
+            .collect::<Result<Vec<_>, _>>()?
+            .join(", ");
         let protocol_version = subprotocols
             .split(",")
             .map(|s| s.trim())
